@@ -47,10 +47,16 @@ type SExpr struct {
 	Eval  func(*Env) string
 	Err   bool // printed as a (string, error) call
 	Multi bool // printed across several lines
+	Bare  bool // a literal printed as it is, without the tracer
 }
 
 // Src is the Go text placed in the template.
 func (x *SExpr) Src() string {
+	if x.Bare {
+		// a bare literal, not wrapped in the trace function: the form the
+		// generator may treat specially; it is not part of the evaluation trace
+		return x.Go
+	}
 	fn := "ts"
 	if x.Err {
 		fn = "tse"
@@ -62,6 +68,9 @@ func (x *SExpr) Src() string {
 }
 
 func (x *SExpr) Value(e *Env) string {
+	if x.Bare {
+		return x.Eval(e)
+	}
 	*e.Trace = append(*e.Trace, x.ID)
 	return x.Eval(e)
 }
